@@ -267,6 +267,17 @@ def primitives(prog, rep, tag):
     g = b.calls_to("slice::get")
     d = [c for c in b.calls() if (c.decl_s or "").endswith("pack_to_slice_unchecked")]
     ok = len(g) == 1 and len(d) == 1
+    if not ok and len(d) == 1:
+        # the same test written as a comparison: delegate only where buf.len() >= packed_len()
+        prb = Prov(b)
+        for cd in q.conds(b):
+            e = q.rel_edges(cd, lambda x: has_root(x, "call", "slice::len") and not has_root(x, "binop"), lambda x: has_root(x, "call", "EtherCrabWireWrite::packed_len") and not has_root(x, "binop"), prb)
+            t = e.get("Ge")
+            errs_ = {x[0] for x in q.aggregates(b, "WireError", "WriteBufferTooShort")}
+            if t is not None and d[0].bb in q.edge_dominated(b, cd.bb, t) and e.get("Lt") is not None and errs_ & q.edge_dominated(b, cd.bb, e["Lt"]):
+                ok = True
+        rep.ob(P, "checked-pack" + tag, ok, "pack_to_slice delegates only where buf.len() >= packed_len(), else WriteBufferTooShort", loc=b.span)
+        return
     if ok:
         tr = q.ok_edge_of_try(b, g[0])
         if tr is None:
